@@ -40,6 +40,18 @@ CLAIMED = {
         note="Assumes WellFormedWork (a task's groups form an antichain); one consumer action per quiescent point; verdicts come only from Delivery.tla clauses and model invariants, replay mismatches are MODEL-DRIFT.",
         technique="TLC model checking of WorkQueue.tla + behaviour replay into the real WorkQueue/Publisher + TLC trace validation against Delivery.tla",
     ),
+    "C06": dict(
+        category="fault_enumeration",
+        text=("Stop-point enumeration on the real code, decided by a TLA+ P-spec: exhaustive re-execution of 8 request shapes with close/abort enabled at every "
+              "prefix (early execution off/on, abort signal configured or not) and seeded generated requests (raising resolvers, failing sources) with a stop "
+              "injected at a random step; after each stop the environment completes every gate the execution did not cancel, and the quiescent observation "
+              "(awaiting callers, pending tasks, per-source started/exhausted/aclose counters, hook calls and tracked work at hook time) is evaluated by TLC "
+              "against Settled.tla (L1-L4). StreamQueue.tla, an I-spec of stream_item_queue.py, is model checked for order, cleanup-once, no lost failure and "
+              "termination (it reproduces findings F15/F11 when the repaired rules are switched off)."),
+        design_ref="DESIGN.md 5/C06",
+        note="Environment fairness assumed (uncancelled gates eventually complete); abort with nobody awaiting judged after the next pull; tracked work = executor's future sets; three genuine defects are listed in known_findings.json (F7, F14, F18).",
+        technique="exhaustive stop-point re-execution on a deterministic loop + TLC evaluation of observations against Settled.tla + TLC model checking of StreamQueue.tla",
+    ),
     "C09": dict(
         category="model_checking",
         text=("TLC checks the grammar theorems (spans disjoint/ordered with ignored gaps, filler insertion at every boundary invisible, Strip laws) on every string "
